@@ -190,7 +190,8 @@ pub fn jobs(tier: Tier, seed: u64) -> Vec<Job> {
         g5.push((n1 + n2 <= 3, crate::case!(format!("fusion |w|={} |w'|={} legs {}-{}-{}", n1, n2, a, m, b), gen, c04_fusion, oracle_fusion, 4)));
     }
     groups.push(g5);
-    let mut out = vec![];
+    // the Vec backend's connected components (the gluing step of this property when run on the Vec backend)
+    let mut out = super::c07::conformance_jobs(tier, &[3, 5]);
     for grp in groups.iter_mut() {
         grp.sort_by_key(|(m, _)| !*m);
         grp.reverse();
